@@ -20,6 +20,16 @@ sys.path.insert(0, os.path.join(C.VERIF, "extract"))
 import op_tables  # noqa: E402
 
 VARIANTS = ["lit", "named", "gbl", "lcl", "arg", "ref", "map", "mapi", "arr"]
+# HISTORY dimension: the same placements, but a preamble H() that churns the run time's value caches (recycled
+# string / byte-string objects of several size classes carrying the numeric-string mark, the boxed integer and
+# float free lists) runs between the creation of the operands and the evaluation ("+h"); "named+ha" creates the
+# operands after the preamble. A value must not depend on what the recycled object was in its previous life.
+HIST_VARIANTS = [v + "+h" for v in VARIANTS] + ["named+ha"]
+ALL_VARIANTS = VARIANTS + HIST_VARIANTS
+
+
+def base_of(variant):
+    return variant.split("+")[0]
 INT_MAX = 9223372036854775807
 INT_MIN = -9223372036854775808
 
@@ -261,8 +271,34 @@ def render(tree, sp, name, is_lit):
 # ------------------------------------------------------------------------------------------------
 HDR = 'function T(v) { return hawk::typename(v) " [" v "]"; }\n'
 
+HIST_FILE_LINES = ["10", "9", "1.5", "-1", "1e1", "1234567890123456", "12345678901234567890123456789012"]
+NUMKEYS = ["10", "9", "1.5", "-1", "1e1", "100", "7", "0x10",
+           "1234567890123456", "12345678901234567.5", "1234567890123456789012",
+           "12345678901234567890123456789012", "1234567890123456789012345678901234567890"]
+
+
+def hist_function(path):
+    """H(): create and release numeric-looking strings through every route that marks them (split, fields of $0,
+    getline var, for-in keys), byte strings, boxed integers and floats; the for-in comes last so that the objects
+    on top of the string caches are the marked ones"""
+    keys = " ".join('m["%s"] = 1;' % k for k in NUMKEYS)
+    return ("function H() {\n"
+            "  @local k, n, i, a, hv, b, f, s, m, y;\n"
+            "  for (i = 0; i < 6; i++) { b = 4611686018427387904 + i; f = 0.5 + i; s = s + b + f; y = @b\"10\" i; }\n"
+            "  b = 0; f = 0; s = 0; y = 0;\n"
+            "  n = split(\"" + " ".join(NUMKEYS) + "\", a); for (i = 1; i <= n; i++) s = s + (a[i] < 5); delete a;\n"
+            "  $0 = \"10 9 1.5 -1 1e1 1234567890123456.5 12345678901234567890123456789012\"; n = $1 + $2; s = $3 $4 $6 $7; s = 0; $0 = \"\";\n"
+            "  while ((getline hv < \"" + path + "\") > 0) n++; close(\"" + path + "\"); hv = 0;\n"
+            "  " + keys + "\n"
+            "  for (k in m) n++;\n"
+            "  k = 0; delete m;\n"
+            "}\n")
+
+HIST_PATH = ["/dev/null"]
+
 
 def slot_name(variant, c, i):
+    variant = base_of(variant)
     if variant in ("lit", "named", "ref"):
         return "v%d_%d" % (c, i)
     if variant == "gbl":
@@ -284,40 +320,47 @@ def case_fragment(variant, c, tree, sp):
     """(declarations, functions, BEGIN-body statements) for one case in one variant"""
     info = Info(tree)
     n = len(info.vals)
-    name = lambda i: slot_name(variant, c, i)
+    hist = variant.split("+")[1] if "+" in variant else ""
+    base = base_of(variant)
+    name = lambda i: slot_name(base, c, i)
     decl, funs, body = [], [], []
-    if variant == "lit":
+    if base == "lit":
         is_lit = lambda i: i not in info.targets
     else:
         is_lit = lambda i: False
-    if variant == "ref":
+    if base == "ref":
         expr = render(tree, sp, lambda i: "p%d" % i, is_lit)
     else:
         expr = render(tree, sp, name, is_lit)
     inits = ["%s = (%s);" % (name(i), lit_src(info.vals[i])) for i in range(n)
              if info.vals[i][0] != "n" and not is_lit(i)]
+    H = ["H();"] if hist else []
+    if hist == "ha":
+        pre = H + inits      # operands created after the preamble
+    else:
+        pre = inits + H      # operands created before the preamble
     shown = ["T(%s)" % name(i) if not is_lit(i) else '"-"' for i in range(n)]
     outexpr = ' ";" '.join(shown) if shown else '""'
     pr = 'print "%d\\t" T(r) "|" %s;' % (c, outexpr)
-    if variant in ("lit", "named", "map", "mapi"):
-        body += inits + ["r = %s;" % expr, pr]
-    elif variant == "arr":
-        body += ["A%d = hawk::array();" % c] + inits + ["r = %s;" % expr, pr]
-    elif variant == "gbl":
+    if base in ("lit", "named", "map", "mapi"):
+        body += pre + ["r = %s;" % expr, pr]
+    elif base == "arr":
+        body += ["A%d = hawk::array();" % c] + pre + ["r = %s;" % expr, pr]
+    elif base == "gbl":
         if n:
             decl.append("@global " + ", ".join(name(i) for i in range(n)) + ";")
-        body += inits + ["r = %s;" % expr, pr]
-    elif variant == "lcl":
+        body += pre + ["r = %s;" % expr, pr]
+    elif base == "lcl":
         loc = ", ".join(["r"] + [name(i) for i in range(n)])
-        funs.append("function F%d() { @local %s; %s r = %s; %s }" % (c, loc, " ".join(inits), expr, pr))
+        funs.append("function F%d() { @local %s; %s r = %s; %s }" % (c, loc, " ".join(pre), expr, pr))
         body.append("F%d();" % c)
-    elif variant == "arg":
+    elif base == "arg":
         params = ", ".join(name(i) for i in range(n))
-        funs.append("function F%d(%s) { @local r; r = %s; %s }" % (c, params, expr, pr))
+        funs.append("function F%d(%s) { @local r; %s r = %s; %s }" % (c, params, " ".join(H), expr, pr))
         body.append("F%d(%s);" % (c, ", ".join("(" + lit_src(v) + ")" for v in info.vals)))
-    elif variant == "ref":
+    elif base == "ref":
         params = ", ".join("&p%d" % i for i in range(n))
-        funs.append("function F%d(%s) { return %s; }" % (c, params, expr))
+        funs.append("function F%d(%s) { %s return %s; }" % (c, params, " ".join(H), expr))
         body += inits + ["r = F%d(%s);" % (c, ", ".join(name(i) for i in range(n))), pr]
     return decl, funs, body
 
@@ -330,7 +373,8 @@ def program(variant, cases, sp, flush=False):
         if flush:
             b = b + ["fflush();"]
         decl += d; funs += f; body += b
-    return "\n".join(decl) + "\n" + HDR + "\n".join(funs) + "\nBEGIN {\n" + "\n".join(body) + "\n}\n"
+    hdr = HDR + (hist_function(HIST_PATH[0]) if "+" in variant else "")
+    return "\n".join(decl) + "\n" + hdr + "\n".join(funs) + "\nBEGIN {\n" + "\n".join(body) + "\n}\n"
 
 
 # ------------------------------------------------------------------------------------------------
@@ -349,6 +393,9 @@ class Runner:
         self.ntimeouts = 0
         self.dir = os.path.join(ctx.scratch, "c08")
         os.makedirs(self.dir, exist_ok=True)
+        HIST_PATH[0] = os.path.join(self.dir, "hist-input.txt")
+        with open(HIST_PATH[0], "w") as f:
+            f.write("\n".join(HIST_FILE_LINES) + "\n")
 
     def run_program(self, text, ncases):
         self.nproc += 1
@@ -443,15 +490,16 @@ class Runner:
         self.run_batch(variant, rest[mid:], res)
 
 
-def run_all(ctx, runner, trees, model, keep, batch=150):
-    """trees: list of trees. model[(c, variant)] = model line. keep: indices to run. Returns hres[(c, variant)]"""
+def run_all(ctx, runner, trees, model, keep, hist=(), batch=150):
+    """trees: list of trees. model[(c, variant)] = model line. keep: indices to run; hist: indices that are also run
+    in the history variants. Returns hres[(c, variant)]"""
     jobs = []
-    for v in VARIANTS:
+    for v in ALL_VARIANTS:
         easy, hard = [], []
         for c, t in enumerate(trees):
-            if c not in keep:
+            if c not in keep or ("+" in v and c not in hist):
                 continue
-            m = model.get((c, v), "")
+            m = model.get((c, base_of(v)), "")
             if m == "SKIP":
                 continue
             # predicted failures run alone so that they do not abort their neighbours
@@ -516,17 +564,17 @@ def variants_agree(lines, ntargets_info):
         if v == ref_v:
             continue
         r, s = split_line(l)
-        if v == "lit":
+        if base_of(v) == "lit":
             if l.startswith("ERR") and not ref.startswith("ERR"):
                 if l == "ERR91":
                     return ("fold-eager-div0", "the literal form fails with divide-by-zero while the variable form yields %s" % ref)
-                return ("diff", "lit: %s but %s: %s" % (l, ref_v, ref))
+                return ("diff", "%s: %s but %s: %s" % (v, l, ref_v, ref))
             if r != rr:
-                return ("diff", "lit: %s but %s: %s" % (l, ref_v, ref))
+                return ("diff", "%s: %s but %s: %s" % (v, l, ref_v, ref))
             if s is not None and rs is not None:
                 for i, x in enumerate(s):
                     if x != "-" and (i >= len(rs) or rs[i] != x):
-                        return ("diff", "lit: %s but %s: %s" % (l, ref_v, ref))
+                        return ("diff", "%s: %s but %s: %s" % (v, l, ref_v, ref))
         else:
             if l != ref:
                 return ("diff", "%s: %s but %s: %s" % (v, l, ref_v, ref))
@@ -776,7 +824,7 @@ def valid_tree(t):
         return False
 
 
-def eval_tree(runner, tree, variants=VARIANTS):
+def eval_tree(runner, tree, variants=ALL_VARIANTS):
     runner.ntimeouts = 0
 
     def one(v):
@@ -815,16 +863,19 @@ def replay_text(runner, tree, lines, model=None, note=""):
     sp = runner.sp
     tk = " ".join(tokens(tree))
     o = ["# %s" % note, "case: " + tk, ""]
-    width = max(len(v) for v in VARIANTS)
-    for v in VARIANTS:
+    width = max(len(v) for v in ALL_VARIANTS)
+    for v in ALL_VARIANTS:
+        if v not in lines and "+" in v:
+            continue
         o.append("# %-*s hawk: %-60s%s" % (width, v, lines.get(v, "<not run>"), ("  model: " + model[v]) if model and v in model else ""))
     o.append("")
     shown = set()
     # the two differing programs first
-    vals = list(lines.items())
     ref = lines.get("named")
-    differing = [v for v, l in vals if l != ref][:1] + ["named"]
-    for v in differing + [x for x in VARIANTS if x not in differing][:0]:
+    info = Info(tree)
+    differing = [v for v, l in lines.items() if v != "named" and ref is not None and
+                 variants_agree({v: l, "named": ref}, info) is not None][:1] + ["named"]
+    for v in differing:
         if v in shown:
             continue
         shown.add(v)
@@ -894,7 +945,51 @@ def build_cases(ctx):
     for i in range(nrand):
         rnd.append(gen_random(rng, rng.choice([2, 3, 3, 4, 4])))
     add(rnd, "random")
-    return trees, tags, pair_idx
+    # the history family: representation-sensitive observers (comparisons consult the numeric-string mark; + - * and
+    # concatenation convert) over numeric-looking strings, byte strings, boxed integers and floats, every unary,
+    # inc/dec and a few assignment forms - plus a seeded sample of everything else
+    hist = set()
+    hf = gen_history_family()
+    add(hf, "history")
+    for t in hf:
+        hist.add(seen[" ".join(tokens(t))])
+    others = [c for c in range(len(trees)) if c not in hist]
+    for c in rng.sample(others, min(len(others), 1200 if ctx.tier == "quick" else 12000)):
+        hist.add(c)
+    for c in range(len(trees)):
+        if tags[c] == "corpus":
+            hist.add(c)
+    return trees, tags, pair_idx, hist
+
+
+HIST_LEAVES = [("s", "10"), ("s", "9"), ("s", "10.0"), ("s", "1.5"), ("s", "-1"), ("s", "1e1"), ("s", "abc"), ("s", " 10"),
+               ("s", "12345678901234567"), ("s", ""), ("m", b""), ("i", 9), ("i", 10), ("f", 10, 0), ("f", 15, -1), ("i", 2 ** 61 + 1),
+               ("m", b"10"), ("m", b"9"), ("c", "9"), ("n",)]
+HIST_BINOPS = ["eq", "ne", "gt", "ge", "lt", "le", "teq", "tne", "plus", "minus", "mul", "concat", "ma"]
+
+
+def gen_history_family():
+    out = []
+    for op in HIST_BINOPS:
+        for a in HIST_LEAVES:
+            for b in HIST_LEAVES:
+                out.append(("B", op, L(a), L(b)))
+    for op in UNROPS:
+        for a in HIST_LEAVES:
+            out.append(("U", op, L(a)))
+    for a in HIST_LEAVES:
+        for op in INCOPS:
+            out.append(("PRE", op, L(a)))
+            out.append(("PST", op, L(a)))
+            out.append(("B", "plus", ("PST", op, L(a)), L(("f", 5, -1))))      # the old value is used after another float is made
+            out.append(("B", "concat", ("PST", op, L(a)), ("V", 0)))
+        for b in HIST_LEAVES:
+            for op in ("none", "plus", "concat"):
+                out.append(("A", op, L(a), L(b)))
+            # a comparison whose operand is itself a fresh string: (a b) < b, a < (b "")
+            out.append(("B", "lt", ("B", "concat", L(a), L(("s", ""))), L(b)))
+            out.append(("B", "eq", L(a), ("B", "concat", L(b), L(("s", "")))))
+    return out
 
 
 def compare_pairs(trees, hres, pair_idx):
@@ -929,8 +1024,8 @@ def run(ctx):
     libdir = C.build_libhawk(ctx)
     hawk = private_cli(ctx, libdir)
     runner = Runner(ctx, hawk, sp)
-    trees, tags, pair_idx = build_cases(ctx)
-    ctx.log("%d expression trees x %d variants" % (len(trees), len(VARIANTS)))
+    trees, tags, pair_idx, hist = build_cases(ctx)
+    ctx.log("%d expression trees x %d variants, %d of them also x %d history variants" % (len(trees), len(VARIANTS), len(hist), len(HIST_VARIANTS)))
     t0 = time.time()
     model = run_model(ctx, trees)
     ctx.log("model: %d lines in %.1fs" % (len(model), time.time() - t0))
@@ -943,14 +1038,14 @@ def run(ctx):
         drop = set(failing) - set(ctx.rng.sample(failing, min(len(failing), 300)))
         keep -= drop
         ctx.log("quick tier: %d of %d failing trees sampled" % (len(failing) - len(drop), len(failing)))
-    hres = run_all(ctx, runner, trees, model, keep)
+    hres = run_all(ctx, runner, trees, model, keep, hist)
     ctx.log("hawk: %d results from %d processes in %.1fs" % (len(hres), runner.nproc, time.time() - t0))
 
     # ---- phase 1: the property, on hawk's output alone
     found = {}          # kind -> list of case indices
     skipped = 0
     for c, tree in enumerate(trees):
-        lines = {v: hres[(c, v)] for v in VARIANTS if (c, v) in hres}
+        lines = {v: hres[(c, v)] for v in ALL_VARIANTS if (c, v) in hres}
         if not lines:
             skipped += 1
             continue
@@ -976,13 +1071,13 @@ def run(ctx):
                 lines = eval_tree(runner, small)
                 v = variants_agree(lines, Info(small)) or (kind, msg)
             oracle_hit = True
-            mdl = {vv: model.get((c, vv), "") for vv in VARIANTS} if small is tree else None
+            mdl = {vv: model.get((c, base_of(vv)), "") for vv in ALL_VARIANTS} if small is tree else None
             ctx.problem("impl", ("the value of `%s` depends on where its operands are stored (%d such trees): %s" if kind == "diff" else
                                  "evaluating `%s` kills the interpreter (%d such trees): %s") % (
                 render(small, sp, lambda i: "x%d" % i, lambda i: True), len(lst), v[1]),
                 replay_text(runner, small, lines, mdl, "property C08 violated on the real interpreter: " + v[1]), found_input=True)
         else:
-            lines = {vv: hres[(c, vv)] for vv in VARIANTS if (c, vv) in hres}
+            lines = {vv: hres[(c, vv)] for vv in ALL_VARIANTS if (c, vv) in hres}
             ctx.problem("impl", "`%s`: %s (%d such trees)" % (render(tree, sp, lambda i: "x%d" % i, lambda i: True), msg, len(lst)),
                         replay_text(runner, tree, lines, None, msg), found_input=True, sig=kind)
     order_seen = [p for p in pair_bad if p[0] == "assop-order"]
@@ -1008,7 +1103,7 @@ def run(ctx):
     nrelaxed = 0
     mism = []
     for (c, v), h in hres.items():
-        m = model.get((c, v), "")
+        m = model.get((c, base_of(v)), "")
         if m.startswith("?"):
             nrelaxed += 1
             continue
@@ -1023,8 +1118,8 @@ def run(ctx):
         mism.sort()
         _, c, v, h, m = mism[0]
         # is it covered by a signature already reported (eager folding shows as lit-only error, same on both sides -> no mismatch)
-        lines = {vv: hres[(c, vv)] for vv in VARIANTS if (c, vv) in hres}
-        mdl = {vv: model.get((c, vv), "") for vv in VARIANTS}
+        lines = {vv: hres[(c, vv)] for vv in ALL_VARIANTS if (c, vv) in hres}
+        mdl = {vv: model.get((c, base_of(vv)), "") for vv in ALL_VARIANTS}
         ctx.problem("corr", "the Lean model disagrees with the interpreter on `%s` (variant %s): hawk %r, model %r (%d differing lines of %d); %s" % (
             render(trees[c], sp, lambda i: "x%d" % i, lambda i: True), v, h, m, len(mism), ncmp, THEOREMS_NOTE),
             replay_text(runner, trees[c], lines, mdl, "model/implementation correspondence broken (all hawk variants agree with each other); first differing line: variant %s hawk %r model %r; %s" % (v, h, m, THEOREMS_NOTE)),
@@ -1069,7 +1164,9 @@ def run(ctx):
                     "every operator / assignment / inc-dec form on the quick-int|boxed-int boundary (+-(2^61-2 .. 2^61+1), +-2^60) with one-step partners + "
                     "compound/expanded and inc/add-assign pairs + two-operator trees with a foldable inner operator over an 8-leaf pool (third operand: 4 leaves) "
                     "(all of them in the thorough tier, a seeded sample in quick) + seeded random trees of depth <= 4; each tree run as 9 variant programs "
-                    "(literal/folded, named, @global, @local, parameter, by-reference parameter, map[str], map[int], hawk::array); oracle: identical "
+                    "(literal/folded, named, @global, @local, parameter, by-reference parameter, map[str], map[int], hawk::array); a history family "
+                    "(comparison/arithmetic/concat/inc-dec/assignment over numeric-looking strings, byte strings, boxed ints, floats, plus a seeded sample of all "
+                    "other trees) additionally runs every placement with a cache-churning preamble between operand creation and evaluation; oracle: identical "
                     "`typename [value]` lines for the result and every operand's final value across variants, pair equalities, no crash; then every line "
                     "compared with the Lean model (cases the float emulation cannot predict are compared among variants only). "
                     "distinct_nontrivial = distinct trees that fold numeric literals, assign, raise an error, or mix operand types",
@@ -1104,8 +1201,8 @@ def replay(ctx, path):
         lines = eval_tree(runner, tree)
         print("case: " + " ".join(tokens(tree)))
         print("  " + render(tree, sp, lambda i: "x%d" % i, lambda i: True))
-        for v in VARIANTS:
-            print("  %-6s hawk: %-50s model: %s" % (v, lines[v], model.get((c, v))))
+        for v in ALL_VARIANTS:
+            print("  %-8s hawk: %-50s model: %s" % (v, lines[v], model.get((c, base_of(v)))))
         r = variants_agree(lines, Info(tree))
         if r is not None:
             print("  -> " + r[0] + ": " + r[1])
